@@ -107,6 +107,7 @@ def run(tier, seed):
                 lines.append(f"cert id={new['id']} gamma={new['gamma']} W={flist(Wopt, frac)} U={flist(U, frac)} pol={flist(pol)} V={di['values']}")
                 meta.append((case, new, di, g, eps, d))
     model = core.run_driver(lines)
+    recheck = []
     for m, mt in zip(model, meta):
         if mt is None:
             continue
@@ -145,13 +146,38 @@ def run(tier, seed):
                 TV = [oracle.q(t, g, V, s_, pol[s_]) for s_ in range(t.S)]
                 meas = oracle.span(TV, V) if new["test"] == "span" else oracle.maxdiff(TV, V)
                 if not meas < eps * (1 - g) / g and di.get("lastevaln") == str(new.get("budget", 100)):
+                    # the known finding is *a stable policy whose last evaluation ran out of budget*; stability is re-checked on the real code
+                    # (a fresh solver run for iter-1 steps must already hold the returned policy) before the violation is attributed to it
                     key = "pi:reports-convergence-with-exhausted-evaluation-budget"
                     viol.append(f"last evaluation stopped at max_eval_iter={new.get('budget')} with measure {float(meas):.6g} >= threshold")
+                    recheck.append((len(res.disagreements), case, new, di, d))
             res.disagreements.append({"channel": f"C01/bound/{new['solver']}", "case": case, "model": m, "impl": str({k: di[k] for k in ('iter', 'policy')})[:300],
                                       "failing_input": True, "what": "; ".join(viol) + f" (gamma={new['gamma']}, eps={new['eps']}, test={new['test']}, budget={new.get('budget')})",
                                       "key": key})
         elif len(res.samples) < 5:
             res.sample({"new": case["new"], "iter": di["iter"], "gapmax": float(gmax), "bound": float(pb), "cert": m})
+    # attribution of exhausted-budget violations: was the policy really stable?
+    if recheck:
+        specs = {}
+        for (ops, d) in jobs:
+            for op in ops:
+                if op["op"] == "problem":
+                    specs[op["id"]] = op
+        rjobs = []
+        for (_, case, new, di, d) in recheck:
+            n = int(di["iter"])
+            rjobs.append(([specs[new["id"]], dict(new, sid="r"), {"op": "solve", "sid": "r", "k": max(0, n - 1)}], d))
+        routs = core.run_impl_parallel(rjobs, workers=8)
+        for (idx, case, new, di, d), rout in zip(recheck, routs):
+            dr = core.parse_resp(rout[-1]["resp"] if int(di["iter"]) > 1 else rout[1]["resp"])   # 0 steps: the first policy, reported by `new`
+            if dr.get("policy") in (None, "_"):
+                raise core.HarnessError("stability re-check: no policy reported: " + str(rout[-1])[:300])
+            res.count("pi-exhausted-budget-rechecked")
+            if dr.get("policy") != di["policy"]:
+                dis = res.disagreements[idx]
+                dis["key"] = "pi:reports-convergence-while-policy-still-changing"
+                dis["what"] = (f"policy iteration reported convergence at iteration {di['iter']} although the improvement step changed the policy "
+                               f"(policy after {int(di['iter']) - 1} iterations: {dr.get('policy')}, returned: {di['policy']}); " + dis["what"])
     return res
 
 
